@@ -32,12 +32,20 @@ Fixpoint html_f (o : hopts) (tight : bool) (t : ftree) : str :=
     let tight' := negb (1 <? Z.of_nat (length ts)) in
     list_open mk ++ [10] ++ $"<li>" ++ (if tight' && first_fpara ts then [] else [10]) ++
     join [10] (map (html_f o tight') ts) ++ (if tight' && last_fpara ts then [] else [10]) ++ $"</li>" ++ [10] ++ list_close mk
+  | FMore mk pad ts next =>      (* a list of several items is loose: every item holds its blocks on lines of their own, paragraphs in <p> *)
+    list_open mk ++ [10] ++ $"<li>" ++ [10] ++ join [10] (map (html_f o false) ts) ++ [10] ++ $"</li>" ++ [10] ++ html_lis o next ++ [10] ++ list_close mk
   | FHead lv c body => $"<h" ++ [48 + Z.of_nat lv] ++ $">" ++ escape_html_text o (c :: body) ++ $"</h" ++ [48 + Z.of_nat lv] ++ $">"
   | FRule _ _ => $"<hr />"
   | FEm c0 pre ch double w post =>
     let tag := if double then $"strong" else $"em" in
     let inner := escape_html_text o (c0 :: pre) ++ $"<" ++ tag ++ $">" ++ escape_html_text o w ++ $"</" ++ tag ++ $">" ++ escape_html_text o post in
     if tight then inner else $"<p>" ++ inner ++ $"</p>"
+  end
+with html_lis (o : hopts) (t : ftree) : str :=      (* the items of the rest of a loose list *)
+  match t with
+  | FItem _ _ ts => $"<li>" ++ [10] ++ join [10] (map (html_f o false) ts) ++ [10] ++ $"</li>"
+  | FMore _ _ ts next => $"<li>" ++ [10] ++ join [10] (map (html_f o false) ts) ++ [10] ++ $"</li>" ++ [10] ++ html_lis o next
+  | _ => []
   end.
 
 (* ---- serialisation ---- *)
@@ -73,10 +81,32 @@ Proof. destruct ch; [contradiction|reflexivity]. Qed.
 Lemma tok_seq_plain ts : tok_seq false ts = map (tok_of false) ts.
 Proof. induction ts as [|t r IH]; [reflexivity|]. cbn [tok_seq map blank_tok app]. destruct r; [reflexivity|]. rewrite IH. reflexivity. Qed.
 
-Lemma first_para_tok ts : first_is_paragraph (map (tok_of false) ts) = first_fpara ts.
-Proof. destruct ts as [|[ | | | | | | ] r]; reflexivity. Qed.
-Lemma last_para_tok ts : last_is_paragraph (map (tok_of false) ts) = last_fpara ts.
-Proof. unfold last_is_paragraph, last_fpara. rewrite <- map_rev. destruct (rev ts) as [|[ | | | | | | ] r]; reflexivity. Qed.
+Lemma tok_of_chain_is_list md : forall t, is_item t = true -> wf_b t = true -> exists s lo items, tok_of md t = List s lo items.
+Proof.
+  induction t as [| | | mk pad ts | mk pad ts next IH | | | ]; intros Hi Hw; try discriminate.
+  - cbn [tok_of]. eexists. eexists. eexists. reflexivity.
+  - cbn [wf_b] in Hw. repeat rewrite andb_true_iff in Hw. destruct Hw as [[[_ Hin] _] Hwn].
+    destruct (IH Hin Hwn) as (s & lo & items & E). cbn [tok_of]. rewrite E. eexists. eexists. eexists. reflexivity.
+Qed.
+
+Lemma is_para_tok t : wf_b t = true -> match tok_of false t with Paragraph _ => true | _ => false end = is_fpara t.
+Proof.
+  intros Hw. destruct t as [ | | | |mk pad ts next| | | ]; try reflexivity.
+  destruct (tok_of_chain_is_list false (FMore mk pad ts next) eq_refl Hw) as (s & lo & items & ->). reflexivity.
+Qed.
+
+Lemma first_para_tok ts : forallb wf_b ts = true -> first_is_paragraph (map (tok_of false) ts) = first_fpara ts.
+Proof.
+  destruct ts as [|t r]; [reflexivity|]. cbn [forallb]. intros H. apply andb_true_iff in H as [Hw _].
+  cbn [map first_is_paragraph first_fpara]. apply (is_para_tok t Hw).
+Qed.
+Lemma last_para_tok ts : forallb wf_b ts = true -> last_is_paragraph (map (tok_of false) ts) = last_fpara ts.
+Proof.
+  intros H. unfold last_is_paragraph, last_fpara. rewrite <- map_rev.
+  assert (Hr : forallb wf_b (rev ts) = true) by (apply forallb_forall; intros x Hx; rewrite forallb_forall in H; apply H; apply in_rev; exact Hx).
+  destruct (rev ts) as [|t r]; [reflexivity|]. cbn [forallb] in Hr. apply andb_true_iff in Hr as [Hw _].
+  cbn [map]. apply (is_para_tok t Hw).
+Qed.
 
 Lemma marker_list mk : marker_ok mk ->
   (if slen (marker_str mk) =? 1 then None else Some (int_of_digits (removelast (marker_str mk)))) =
@@ -140,15 +170,59 @@ Proof.
     rewrite !serialize_app, E. cbn. rewrite ?app_nil_r, <- ?app_assoc. reflexivity.
 Qed.
 
+Lemma ser_li o a ch : ch <> [] ->
+  serialize (render o false false (ListItem a ch)) = $"<li>" ++ [10] ++ serialize (join_items [nl] (map (render o false false) ch)) ++ [10] ++ $"</li>".
+Proof.
+  intros H. rewrite render_item by assumption. cbn [andb]. unfold wrap, serialize. cbn [flat_map app]. rewrite !flat_map_app.
+  cbn [flat_map ser_item nl app]. cbn. rewrite ?app_nil_r, <- ?app_assoc. reflexivity.
+Qed.
+
+Definition start_of (mk : marker) : option Z := match mk with MBullet _ => None | MOrdered ds _ => Some (int_of_digits ds) end.
+
+(* the items of a loose list, rendered *)
+Lemma html_chain o f (IH : forall t sup, (depth t <= f)%nat -> wf_b t = true -> serialize (render o sup false (tok_of false t)) = html_f o sup t) :
+  forall t, is_item t = true -> wf_b t = true -> (depth t <= S f)%nat ->
+  exists lo items, tok_of false t = List (start_of (marker_of t)) lo items /\ items <> [] /\
+    serialize (join_items [nl] (map (render o false false) items)) = html_lis o t.
+Proof.
+  assert (Kids : forall ts, ts <> [] -> forallb wf_b ts = true -> Forall (fun t => (depth t <= f)%nat) ts ->
+            serialize (join_items [nl] (map (render o false false) (tok_seq false ts))) = join [10] (map (html_f o false) ts)).
+  { intros ts Hne Hall Hd. rewrite tok_seq_plain, map_map. rewrite (serialize_join (fun x => render o false false (tok_of false x))).
+    f_equal. apply map_ext_in. intros x Hx. rewrite forallb_forall in Hall. rewrite Forall_forall in Hd. apply IH; [apply Hd; exact Hx|apply Hall; exact Hx]. }
+  induction t as [| | | mk pad ts | mk pad ts next IHn | | | ]; intros Hi Hw Hd; try discriminate.
+  - cbn [wf_b] in Hw. repeat rewrite andb_true_iff in Hw. destruct Hw as [[[[[[Hmk Hp1] Hp4] Hs] Hall] Hg] Hth].
+    apply marker_ok_reflect in Hmk.
+    assert (Hne : ts <> []) by (destruct ts; [discriminate|discriminate]).
+    cbn [tok_of marker_of].
+    change ((fix seq (ts0 : list ftree) : list tok := match ts0 with [] => [] | t :: r => tok_of false t :: match r with [] => [] | _ :: _ => blank_tok false ++ seq r end end) ts) with (tok_seq false ts).
+    rewrite (marker_list mk Hmk). eexists. eexists. split; [reflexivity|]. split; [discriminate|].
+    cbn [map join_items]. rewrite ser_li by (rewrite tok_seq_plain; destruct ts; [contradiction|discriminate]).
+    cbn [depth] in Hd. rewrite (Kids ts Hne Hall) by (apply Forall_forall; intros x Hx; eapply depth_children; eassumption).
+    reflexivity.
+  - cbn [wf_b] in Hw. repeat rewrite andb_true_iff in Hw. destruct Hw as [[[[[[[[[Hmk Hp1] Hp4] Hs] Hall] Hg] Hth] Hin] Hk] Hwn].
+    apply marker_ok_reflect in Hmk.
+    assert (Hne : ts <> []) by (destruct ts; [discriminate|discriminate]).
+    cbn [depth] in Hd.
+    destruct (IHn Hin Hwn ltac:(lia)) as (lo & items & E & Hni & Hser).
+    cbn [tok_of marker_of].
+    change ((fix seq (ts0 : list ftree) : list tok := match ts0 with [] => [] | t :: r => tok_of false t :: match r with [] => [] | _ :: _ => blank_tok false ++ seq r end end) ts) with (tok_seq false ts).
+    rewrite E, (marker_list mk Hmk). cbn [blank_tok]. rewrite app_nil_r.
+    eexists. eexists. split; [reflexivity|]. split; [discriminate|].
+    cbn [map]. rewrite join_items_cons by (destruct items; [contradiction|discriminate]).
+    rewrite !serialize_app, Hser. rewrite ser_li by (rewrite tok_seq_plain; destruct ts; [contradiction|discriminate]).
+    rewrite (Kids ts Hne Hall) by (apply Forall_forall; intros x Hx; eapply depth_children; [exact Hx|lia]).
+    cbn [html_lis]. cbn [serialize flat_map ser_item nl app]. repeat (rewrite <- ?app_assoc; cbn [app]). reflexivity.
+Qed.
+
 Lemma html_fragment o : forall f t sup, (depth t <= f)%nat -> wf_b t = true ->
   serialize (render o sup false (tok_of false t)) = html_f o sup t.
 Proof.
   induction f as [|f IH]; intros t sup Hd Hw.
-  - destruct t as [c body more|ch n content|ts|mk pad ts|lv hc hb|rc rn|e0 epre ech edbl ew epost]; [| |cbn [depth] in Hd; lia|cbn [depth] in Hd; lia| |reflexivity|apply html_em].
+  - destruct t as [c body more|ch n content|ts|mk pad ts|mk pad ts next|lv hc hb|rc rn|e0 epre ech edbl ew epost]; [| |cbn [depth] in Hd; lia|cbn [depth] in Hd; lia|cbn [depth] in Hd; lia| |reflexivity|apply html_em].
     + apply html_para.
     + cbn [tok_of render html_f f_language f_content]. cbn. rewrite ?app_nil_r. reflexivity.
     + apply html_head. cbn [wf_b] in Hw. repeat rewrite andb_true_iff in Hw. destruct Hw as [[[[[[H1 H2] _] _] _] _] _]. apply Nat.leb_le in H1, H2. lia.
-  - destruct t as [c body more|ch n content|ts|mk pad ts|lv hc hb|rc rn|e0 epre ech edbl ew epost]; [| | | |apply html_head; cbn [wf_b] in Hw; repeat rewrite andb_true_iff in Hw; destruct Hw as [[[[[[H1 H2] _] _] _] _] _]; apply Nat.leb_le in H1, H2; lia|reflexivity|apply html_em].
+  - destruct t as [c body more|ch n content|ts|mk pad ts|mk pad ts next|lv hc hb|rc rn|e0 epre ech edbl ew epost]; [| | | | |apply html_head; cbn [wf_b] in Hw; repeat rewrite andb_true_iff in Hw; destruct Hw as [[[[[[H1 H2] _] _] _] _] _]; apply Nat.leb_le in H1, H2; lia|reflexivity|apply html_em].
     + apply html_para.
     + cbn [tok_of render html_f f_language f_content]. cbn. rewrite ?app_nil_r. reflexivity.
     + cbn [wf_b] in Hw. repeat rewrite andb_true_iff in Hw. destruct Hw as [[Hs Hall] Hg].
@@ -172,7 +246,7 @@ Proof.
       rewrite tok_seq_plain, (marker_list mk Hmk).
       set (lo := 1 <? Z.of_nat (length ts)).
       cbn [map join_items]. rewrite render_item by (destruct ts; [contradiction|discriminate]).
-      rewrite first_para_tok, last_para_tok, map_map.
+      rewrite first_para_tok, last_para_tok, map_map by exact Hall.
       unfold wrap, serialize. cbn [flat_map app]. rewrite !flat_map_app. cbn [flat_map]. rewrite ?flat_map_app, ?app_nil_r. change (flat_map ser_item) with serialize.
       rewrite (serialize_join (fun x => render o (negb lo) false (tok_of false x))).
       rewrite forallb_forall in Hall.
@@ -180,12 +254,22 @@ Proof.
       set (J := join [10] (map (html_f o (negb lo)) ts)).
       destruct (negb lo && first_fpara ts), (negb lo && last_fpara ts); destruct mk as [b|ds d]; cbn [list_open list_close];
         try destruct (int_of_digits ds =? 1); cbn; rewrite ?app_nil_r; repeat (rewrite <- ?app_assoc; cbn [app]); reflexivity.
+    + (* a list of several items *)
+      pose proof Hw as Hw0. cbn [wf_b] in Hw. repeat rewrite andb_true_iff in Hw. destruct Hw as [[[[[[[[[Hmk Hp1] Hp4] Hs] Hall] Hg] Hth] Hin] Hk] Hwn].
+      apply marker_ok_reflect in Hmk.
+      destruct (html_chain o f IH (FMore mk pad ts next) eq_refl Hw0 Hd) as (lo & items & E & Hni & Hser).
+      rewrite E. cbn [render marker_of]. cbn [html_lis] in Hser.
+      assert (Elo : lo = true).
+      { cbn [tok_of] in E. destruct (tok_of_chain_is_list false next Hin Hwn) as (s2 & lo2 & it2 & E2). rewrite E2 in E. cbn [negb orb] in E. injection E as _ <- _. reflexivity. }
+      subst lo. cbn [negb].
+      unfold wrap, serialize. cbn [flat_map app]. rewrite !flat_map_app. change (flat_map ser_item) with serialize. rewrite Hser. cbn [html_f].
+      destruct mk as [b|ds d]; cbn [start_of list_open list_close]; try destruct (int_of_digits ds =? 1); cbn; rewrite ?app_nil_r; repeat (rewrite <- ?app_assoc; cbn [app]); reflexivity.
 Qed.
 
 Lemma html_f_starts o t : exists r, html_f o false t = 60 :: r.
 Proof.
-  destruct t as [c body more|ch n content|ts|mk pad ts|lv hc hb|rc rn|e0 epre ech edbl ew epost]; cbn [html_f]; try (eexists; reflexivity).
-  destruct mk as [b|ds d]; cbn [list_open]; [eexists; reflexivity|]. destruct (int_of_digits ds =? 1); eexists; reflexivity.
+  destruct t as [c body more|ch n content|ts|mk pad ts|mk pad ts next|lv hc hb|rc rn|e0 epre ech edbl ew epost]; cbn [html_f]; try (eexists; reflexivity);
+  (destruct mk as [b|ds d]; cbn [list_open]; [eexists; reflexivity|]; destruct (int_of_digits ds =? 1); eexists; reflexivity).
 Qed.
 
 Lemma render_document_one o x r : serialize (render o false false x) = 60 :: r ->
